@@ -413,6 +413,40 @@ def prefixes(n, classes="&=+o"):
     return ["".join(p) for p in itertools.product(classes, repeat=n)]
 
 
+SHORT_BODY = "a=1&b=%41+c&a=&a=2%2B&c"
+SHORT_PAIRS = [("a", "1"), ("b", "A c"), ("a", ""), ("a", "2+"), ("c", "")]
+SHORT_THRESHOLDS = [1, 4, 1000]
+
+
+def make_short_read():
+    body = SHORT_BODY.encode("latin1")
+    lens = list(range(1, len(body) + 1))
+
+    def q(v: int, ti: int, use_params: bool):
+        assume(0 <= v < len(body) and 0 <= ti < len(SHORT_THRESHOLDS))
+        rq = Request({"REQUEST_METHOD": "POST", "PATH_INFO": "/", "QUERY_STRING": "",
+                      "CONTENT_TYPE": "application/x-www-form-urlencoded", "CONTENT_LENGTH": str(len(body)),
+                      "wsgi.input": stubs.SymStream(len(body), [lens[v]], data=body)},
+                     config={"max_memfile_size": SHORT_THRESHOLDS[ti]})
+        try:
+            d = rq.params if use_params else rq.forms
+        except Exception as e:
+            if SHORT_THRESHOLDS[ti] < len(body):      # text above the in-memory threshold may be refused (C13)
+                cover("refused")
+                return None
+            return "reading the form raised %r" % (e,)
+        got = []
+        for k in d:
+            vals = dict.__getitem__(d, k)
+            got += [(k, x) for x in (vals if isinstance(vals, list) else [vals])]
+        want = sorted(p for p in SHORT_PAIRS)
+        if sorted(got) != want:
+            return "first read() returned %d of %d bytes: form %r, sent %r" % (lens[v], len(body), sorted(got), want)
+        cover("ok")
+        return None
+    return q
+
+
 def queries(tier):
     T = tier == "thorough"
     out = []
@@ -530,6 +564,11 @@ def queries(tier):
     rt("params-qb", 2, 2 if not T else 3, 2 if not T else 3, 1, 150 if not T else 600)
     for view in ("query", "params-b") if not T else VIEWS + ("params-qb",):
         rt(view, 3, 2 if not T else 3, 2 if not T else 3, 0, 150 if not T else 400)
+    # the body arrives in short reads (a server that hands out what has arrived so far): the form is the same
+    out.append(Q("short-read/forms", make_short_read(), "urlencoded body %r (repeated keys, escapes, '+', empty values); the "
+                 "server's first read() returns only v bytes, every v in 1..len, max_memfile_size from %r (solver index); "
+                 "forms and params must list the pairs of the whole body" % (SHORT_BODY, SHORT_THRESHOLDS),
+                 timeout=200, expect_cover=["ok"], family="short-read"))
     return out
 
 
